@@ -109,7 +109,11 @@ func (c *Cluster) Open(id string) error {
 	n := c.Nodes[id]
 	n.Incarnation++
 	n.Parked = new(int32)
-	n.FSM = &FSM{}
+	pad := 0
+	if n.FSM != nil {
+		pad = n.FSM.Pad // harness configuration of the node, kept across restarts
+	}
+	n.FSM = &FSM{Pad: pad}
 	n.T = &Transport{c: c, id: id, inc: n.Incarnation}
 	if err := os.MkdirAll(n.Dir, 0o755); err != nil {
 		return err
@@ -384,16 +388,19 @@ func (f *FSM) Apply(op *raft.Operation) interface{} {
 	return len(f.Ops)
 }
 
-// snapshot format: 4 bytes big-endian per applied payload
+// snapshot format: 4 bytes big-endian count, then 4 bytes per applied payload, then Pad zero bytes
 func (f *FSM) Snapshot(w io.Writer) error {
 	f.mu.Lock()
 	defer f.mu.Unlock()
 	var buf bytes.Buffer
+	var b [4]byte
+	binary.BigEndian.PutUint32(b[:], uint32(len(f.Ops)))
+	buf.Write(b[:])
 	for _, p := range f.Ops {
-		var b [4]byte
 		binary.BigEndian.PutUint32(b[:], uint32(p))
 		buf.Write(b[:])
 	}
+	buf.Write(make([]byte, f.Pad))
 	_, err := w.Write(buf.Bytes())
 	return err
 }
@@ -406,8 +413,11 @@ func (f *FSM) Restore(r io.Reader) error {
 	f.mu.Lock()
 	defer f.mu.Unlock()
 	f.Ops = nil
-	for i := 0; i+4 <= len(b); i += 4 {
-		f.Ops = append(f.Ops, uint64(binary.BigEndian.Uint32(b[i:i+4])))
+	if len(b) >= 4 {
+		k := int(binary.BigEndian.Uint32(b[:4]))
+		for i := 0; i < k && 8+4*i <= len(b); i++ {
+			f.Ops = append(f.Ops, uint64(binary.BigEndian.Uint32(b[4+4*i:8+4*i])))
+		}
 	}
 	f.Applies = nil
 	f.Restores++
@@ -673,7 +683,7 @@ func b01(b bool) string {
 }
 
 func dataS(b []byte) string {
-	// snapshot bytes as 4-byte big-endian payloads; anything else in hex
+	// snapshot bytes as 4-byte big-endian numbers, runs written as value*count; anything else in hex
 	if len(b) == 0 {
 		return "-"
 	}
@@ -681,8 +691,18 @@ func dataS(b []byte) string {
 		return fmt.Sprintf("x%x", b)
 	}
 	var p []string
-	for i := 0; i < len(b); i += 4 {
-		p = append(p, strconv.FormatUint(uint64(binary.BigEndian.Uint32(b[i:i+4])), 10))
+	for i := 0; i < len(b); {
+		v := binary.BigEndian.Uint32(b[i : i+4])
+		j := i + 4
+		for j < len(b) && binary.BigEndian.Uint32(b[j:j+4]) == v {
+			j += 4
+		}
+		if n := (j - i) / 4; n > 1 {
+			p = append(p, fmt.Sprintf("%d*%d", v, n))
+		} else {
+			p = append(p, strconv.FormatUint(uint64(v), 10))
+		}
+		i = j
 	}
 	return strings.Join(p, ".")
 }
